@@ -55,7 +55,8 @@ type Node struct {
 	Conn    *p2p.Connection
 	ABI     *ABI
 	Genesis *blockchain.Block
-	Slot    *validator.BlockSlot
+	Slot    *SlotCalc            // the harness's OWN slot arithmetic (not the engine's BlockSlot)
+	engSlot *validator.BlockSlot // the engine's, only for the cross-check in GeneratorAt
 
 	evMu   sync.Mutex
 	taps   map[string]chan interface{}
@@ -162,7 +163,8 @@ func (n *Node) open() error {
 	if err := n.openDB(); err != nil {
 		return err
 	}
-	n.Slot = validator.NewBlockSlot(n.Cfg.GenesisTS, n.Cfg.BlockTime)
+	n.Slot = &SlotCalc{GenesisTS: n.Cfg.GenesisTS, BlockTime: n.Cfg.BlockTime}
+	n.engSlot = validator.NewBlockSlot(n.Cfg.GenesisTS, n.Cfg.BlockTime)
 	n.Chain = blockchain.NewChain(&blockchain.ChainConfig{ChainID: ChainID, MaxTransactionsLength: n.Cfg.MaxTxLength, MaxBlockCache: n.Cfg.MaxBlockCache, KeepEventsForHeights: n.Cfg.KeepEvents})
 	n.Chain.Init(n.Genesis, n.DB)
 	pc := &p2p.Config{ChainID: ChainID, Version: "1.0", MinNumOfConnections: 1, MaxNumOfConnections: 20}
@@ -311,19 +313,51 @@ func (n *Node) NextParamHeight(h uint32) (uint32, bool) {
 // SlotOf returns the slot number of a timestamp.
 func (n *Node) SlotOf(ts uint32) int { return n.Slot.GetSlotNumber(ts) }
 
-// GeneratorAt returns the key of the generator the real node expects for (height, slot).
+// SlotCalc is the protocol's slot arithmetic restated: slot k covers [genesisTS + k*blockTime, genesisTS + (k+1)*blockTime).
+type SlotCalc struct{ GenesisTS, BlockTime uint32 }
+
+func (s *SlotCalc) GetSlotNumber(ts uint32) int { return int((ts - s.GenesisTS) / s.BlockTime) }
+func (s *SlotCalc) GetSlotTime(slot int) uint32 { return s.GenesisTS + uint32(slot)*s.BlockTime }
+
+// ScriptedGenerators is the generator list (pool indexes, round-robin order) in force for a block at the given height, derived
+// from the chain content alone: the validator list of the latest validator update below that height (BFT validators, then standby
+// generators, in the order the application returned them), the genesis configuration otherwise.
+func (n *Node) ScriptedGenerators(height uint32) []int {
+	list := func(p *NextParams) []int { return append(append([]int{}, p.Idx...), p.Standby...) }
+	for h := int64(height) - 1; h > int64(n.Cfg.GenesisHeight); h-- {
+		b, err := n.Chain.DataAccess().GetBlockByHeight(uint32(h))
+		if err != nil {
+			break
+		}
+		if sc := ScriptOf(b.Assets); sc.Next != nil {
+			return list(sc.Next)
+		}
+	}
+	return list(&n.Cfg.Genesis)
+}
+
+// GeneratorAt returns the key of the generator assigned to (height, slot) by the protocol rule - round robin over the generator
+// list in force, indexed by the slot number - computed from the chain content with the harness's own arithmetic. The engine's
+// answer (stored generator list, its AtTimestamp and its BlockSlot) is compared with it: a node that assigns slots differently
+// would accept blocks of the wrong generator and refuse the right one, yet agree with itself in every other check (the harness
+// used to ASK the engine who the generator is; found by the pass over "oracles that read through the code under test", DESIGN 9.5).
 func (n *Node) GeneratorAt(height uint32, slot int) (*Key, error) {
+	want := n.ScriptedGenerators(height)
+	if len(want) == 0 {
+		return nil, fmt.Errorf("no generators scripted for height %d", height)
+	}
+	k := Keys()[want[slot%len(want)]]
 	gens, err := n.Exec.GetGeneratorKeys(n.Store(), height)
 	if err != nil {
 		return nil, err
 	}
-	g, err := gens.AtTimestamp(n.Slot, n.Slot.GetSlotTime(slot))
+	g, err := gens.AtTimestamp(n.engSlot, n.Slot.GetSlotTime(slot))
 	if err != nil {
 		return nil, err
 	}
-	k := KeyByAddr(g.Address())
-	if k == nil {
-		return nil, fmt.Errorf("generator %x not in key pool", g.Address())
+	if !bytes.Equal(g.Address(), k.Addr) {
+		return nil, fmt.Errorf("GENERATOR-ASSIGNMENT: the engine assigns slot %d at height %d to %x, round robin over the generator list in force (%v) gives validator %d (%x)",
+			slot, height, []byte(g.Address()), want, k.Index, k.Addr)
 	}
 	return k, nil
 }
